@@ -9,36 +9,42 @@ Lemma kind_is_retry e : kind_is KRetry e = is_kind KRetry e.
 Proof. unfold kind_is, is_kind. destruct (e_kind e); reflexivity. Qed.
 Lemma kind_is_fnend e : kind_is KFnEnd e = is_kind KFnEnd e.
 Proof. unfold kind_is, is_kind. destruct (e_kind e); reflexivity. Qed.
+Lemma kind_is_hedge e : kind_is KHedge e = is_kind KHedge e.
+Proof. unfold kind_is, is_kind. destruct (e_kind e); reflexivity. Qed.
+Lemma bump_is k e : bump k (e_kind e) = if is_kind k e then 1 else 0.
+Proof. reflexivity. Qed.
 
 Lemma stats_ok_sound l : forall seen tlast,
   trace_ok (rev l ++ seen) ->
   (match seen with e :: _ => tlast = e_time e | [] => tlast <= match l with e :: _ => e_time e | [] => tlast end end) ->
-  stats_ok seen (cntk KRetry seen) (cntk KFnEnd seen) tlast l = true.
+  stats_ok seen (cntk KRetry seen) (cntk KHedge seen) (cntk KFnEnd seen) tlast l = true.
 Proof.
   induction l as [|e l IH]; intros seen tlast Hok Ht; [reflexivity|].
   cbn [rev] in Hok. rewrite <- app_assoc in Hok. cbn [app] in Hok.
-  pose proof (trace_ok_suffix _ _ Hok) as He. cbn [trace_ok] in He. destruct He as (Ha & Hr & Hx & Htime & _).
-  cbn [stats_ok]. rewrite kind_is_retry, kind_is_fnend.
-  rewrite cntk_cons in Hr, Hx.
+  pose proof (trace_ok_suffix _ _ Hok) as He. cbn [trace_ok] in He. destruct He as (Ha & Hr & Hh & Hx & Htime & _).
+  cbn [stats_ok]. rewrite kind_is_retry, kind_is_fnend, kind_is_hedge.
+  rewrite cntk_cons, bump_is in Hr, Hh, Hx.
   assert (E1 : (if is_kind KRetry e then cntk KRetry seen + 1 else cntk KRetry seen) = cntk KRetry (e :: seen))
-    by (rewrite cntk_cons; destruct (is_kind KRetry e); lia).
+    by (rewrite cntk_cons, bump_is; destruct (is_kind KRetry e); lia).
   assert (E2 : (if is_kind KFnEnd e then cntk KFnEnd seen + 1 else cntk KFnEnd seen) = cntk KFnEnd (e :: seen))
-    by (rewrite cntk_cons; destruct (is_kind KFnEnd e); lia).
-  rewrite E1, E2. rewrite (IH (e :: seen) (e_time e) Hok eq_refl).
+    by (rewrite cntk_cons, bump_is; destruct (is_kind KFnEnd e); lia).
+  assert (E3 : (if is_kind KHedge e then cntk KHedge seen + 1 else cntk KHedge seen) = cntk KHedge (e :: seen))
+    by (rewrite cntk_cons, bump_is; destruct (is_kind KHedge e); lia).
+  rewrite E1, E2, E3. rewrite (IH (e :: seen) (e_time e) Hok eq_refl).
   assert (Hle : tlast <= e_time e) by (destruct seen as [|e' ?]; [exact Ht|subst tlast; exact Htime]).
-  rewrite !cntk_cons. destruct (e_kind e); cbn [andb]; lia.
+  rewrite !cntk_cons, !bump_is. destruct (e_kind e); cbn [andb]; lia.
 Qed.
 
-(* with every completion listener registered, the C17 checker accepts the model's log of any
-   execution through any stack *)
+(* with every completion listener registered, the C17 checker accepts the model's complete log of any
+   execution through any stack (incl. what still-running hedge attempts log after the execution returned) *)
 Theorem c17_checker_accepts_model fuel stack now ext key b l k c script :
-  let evs := rev (w_trace (snd (execute fuel stack (fresh_world now ext key b l k c script)))) in
-  stats_ok [] 0 0 (match evs with e :: _ => e_time e | [] => 0 end) evs = true.
+  let evs := rev (w_trace (drain (snd (execute fuel stack (fresh_world now ext key b l k c script))))) in
+  stats_ok [] 0 0 0 (match evs with e :: _ => e_time e | [] => 0 end) evs = true.
 Proof.
   cbv zeta.
   pose proof (execution_statistics_exact fuel stack now ext key b l k c script) as H.
   set (tr := w_trace _) in *.
-  change 0 with (cntk KRetry []) at 1. change 0 with (cntk KFnEnd []) at 1.
+  change 0 with (cntk KRetry []) at 1. change 0 with (cntk KHedge []) at 1. change 0 with (cntk KFnEnd []) at 1.
   apply stats_ok_sound.
   - rewrite rev_involutive, app_nil_r. exact H.
   - destruct (rev tr); lia.
